@@ -3,6 +3,7 @@ import FeatModel.Model.Solver.History
 import FeatModel.Model.Solver.IluSpec
 import FeatModel.Model.Solver.IluLevels
 import FeatModel.Model.Solver.Blocked
+import FeatModel.Model.LA.Filter
 /-!
 line-protocol driver for the C08 models (stationary preconditioners)
 
@@ -34,9 +35,45 @@ def stepP : P (Step Rat) := do
   | "S" => pure .initSymbolic
   | "N" => pure .initNumeric
   | "D" => pure .done
+  | "E" => pure .doneNumeric
+  | "I" => do let x ← ratList; pure (.applyIn x.toArray)
   | "A" => do let x ← ratList; pure (.apply x.toArray)
   | "U" => do let v ← ratList; pure (.update v.toArray)
   | _ => throw s!"unknown step {t}"
+
+/-- filter descriptor of a history line -/
+inductive FDesc where
+  | unit (idx : List Nat) | none | mean (prim dual : List Rat) | slip (es : List (Nat × List Rat))
+
+def filtP (bs : Nat) : P FDesc := do
+  match (← get) with
+  | t :: _ =>
+    if t.toNat?.isSome then (FDesc.unit <$> natList)
+    else do
+      let w ← tok
+      match w with
+      | "unit" => FDesc.unit <$> natList
+      | "none" => pure FDesc.none
+      | "mean" => do let p ← ratList; let d ← ratList; pure (FDesc.mean p d)
+      | "slip" => do
+        let k ← nat
+        let es ← many k (do let i ← nat; let nu ← many bs rat; pure (i, nu))
+        pure (FDesc.slip es)
+      | _ => throw s!"unknown filter {w}"
+  | [] => throw "token underrun"
+
+/-- the filter as (unit-filter block indices, `filter_cor` of the other filter types on the pod array);
+    `none` = the filter constructor aborts.  Mean / slip filters are the C06 models `LA.Filter.MeanF` / `SlipF`. -/
+def filtOf (bs n : Nat) : FDesc → Option (List Nat × (Array Rat → Option (Array Rat)))
+  | .unit idx => some (idx, some)
+  | .none => some ([], some)
+  | .mean prim dual =>
+    match LA.Filter.MeanF.mk3 (fun v => decide (epsQ < v)) prim dual 0 with
+    | none => none
+    | some f => some ([], fun y => (f.filterCor y.toList).map List.toArray)
+  | .slip es =>
+    let f : LA.Filter.SlipF Rat := { bs := bs, size := n, es := LA.Filter.normalize es }
+    some ([], fun y => (f.filter y.toList).map List.toArray)
 
 def showR (v : Array Rat) : String := s!"R {showRatsL v.toList} U1"
 
@@ -77,7 +114,6 @@ def blkOps (bs : Nat) : Blk.Ops Rat (Array Rat) (Array Rat) :=
 def chunks (k : Nat) (v : Array Rat) : Array (Array Rat) :=
   Array.ofFn (n := v.size / k) fun i => Array.ofFn (n := k) fun j => v.getD (i.val * k + j.val) 0
 
-def showRB (v : Array (Array Rat)) : String := showR (v.foldl (· ++ ·) #[])
 
 /-! ### blocked ILU: the scalar ILU model (`copyDataCsr`, `factorizeNumeric`, `iluSolve`, `runSteps`) instantiated at the
 non-commutative ring of bs×bs rational matrices (`ILUCoreBlocked`: `L_ij ← L_ij · D_jj⁻¹`, `D_ii ← D_ii⁻¹`); vector
@@ -110,17 +146,54 @@ def toBlockCsr (bs : Nat) (A : Csr Rat) : Csr (BMat bs) :=
   { rows := A.rows, cols := A.cols, rowPtr := A.rowPtr, colInd := A.colInd,
     val := (chunks (bs * bs) A.val).map BMat.mk }
 
-def runBlocked (bs : Nat) (ssor : Bool) (ω : Rat) (fidx : List Nat) :
+def flat (v : Array (Array Rat)) : Array Rat := v.foldl (· ++ ·) #[]
+
+def runBlocked (bs : Nat) (ssor : Bool) (ω : Rat) (fidx : List Nat) (post : Array Rat → Option (Array Rat)) :
     Csr (Array Rat) → List (Step Rat) → List String → Option (List String)
   | _, [], acc => some acc.reverse
-  | A, .update v :: r, acc => runBlocked bs ssor ω fidx { A with val := chunks (bs * bs) v } r acc
+  | A, .update v :: r, acc => runBlocked bs ssor ω fidx post { A with val := chunks (bs * bs) v } r acc
   | A, .apply x :: r, acc =>
     if x.size != A.rows * bs then none
     else
       let xb := chunks bs x
       let y := if ssor then Blk.ssorApply (blkOps bs) ω fidx A xb else Blk.sorApply (blkOps bs) ω fidx A xb
-      runBlocked bs ssor ω fidx A r (showRB y :: acc)
-  | A, _ :: r, acc => runBlocked bs ssor ω fidx A r acc
+      match post (flat y) with
+      | none => none
+      | some z => runBlocked bs ssor ω fidx post A r (showR z :: acc)
+  | A, .applyIn x :: r, acc =>
+    if x.size != A.rows * bs then none
+    else
+      let xb := chunks bs x
+      let o := blkOps bs
+      let y := if ssor then
+          Blk.filterCor o fidx ((Blk.ssorBwd o ω A (Blk.ssorFwdIn o ω A xb)).map (o.smul (ω * ((1 + 1) - ω))))
+        else Blk.filterCor o fidx (Blk.sorSweepIn o ω A xb)
+      match post (flat y) with
+      | none => none
+      | some z => runBlocked bs ssor ω fidx post A r (showR z :: acc)
+  | A, _ :: r, acc => runBlocked bs ssor ω fidx post A r acc
+
+/-- BCSR → scalar CSR with `n·bs` rows (block `(i, c)`, entry `(a, b)` ↦ `(i·bs + a, c·bs + b)`); Jacobi, matrix,
+    scale and diagonal preconditioners on BCSR act exactly like their scalar versions on the expanded matrix -/
+def expandVals (bs : Nat) (A : Csr Rat) (v : Array Rat) : Array Rat := Id.run do
+  let mut out : Array Rat := #[]
+  for i in [0:A.rows] do
+    for a in [0:bs] do
+      for k in [A.rowPtr.getD i 0 : A.rowPtr.getD (i + 1) 0] do
+        for b in [0:bs] do
+          out := out.push (v.getD (k * bs * bs + a * bs + b) 0)
+  return out
+
+def expandBcsr (bs : Nat) (A : Csr Rat) : Csr Rat := Id.run do
+  let mut rp : Array Nat := #[0]
+  let mut ci : Array Nat := #[]
+  for i in [0:A.rows] do
+    for _a in [0:bs] do
+      for k in [A.rowPtr.getD i 0 : A.rowPtr.getD (i + 1) 0] do
+        for b in [0:bs] do
+          ci := ci.push (A.colInd.getD k 0 * bs + b)
+      rp := rp.push ci.size
+  return { rows := A.rows * bs, cols := A.cols * bs, rowPtr := rp, colInd := ci, val := expandVals bs A A.val }
 
 /-- arrays of the right sizes with arbitrary non-zero content -/
 def garbage (s : IluSym) : IluNum Rat :=
@@ -134,15 +207,17 @@ def handle : P String := do
     let p ← int
     let ω ← rat
     let A ← csrP
-    let fidx ← natList
+    let fd ← filtP 1
     let steps ← listOf stepP
     let kind? : Option Kind := match kindS with
       | "jac" => some .jacobi | "sor" => some .sor | "ssor" => some .ssor | "poly" => some (.poly p.toNat)
-      | "ilu" => some (.ilu p) | "mat" => some .matrix | _ => none
-    match kind? with
-    | none => throw s!"unknown kind {kindS}"
-    | some kind =>
-      let c : Cfg Rat := { kind := kind, ω := ω, fidx := fidx }
+      | "ilu" => some (.ilu p) | "mat" => some .matrix | "scale" => some .scale | "diag" => some .diagonal
+      | _ => none
+    match kind?, filtOf 1 A.rows fd with
+    | none, _ => throw s!"unknown kind {kindS}"
+    | some _, none => pure "ABORT"
+    | some kind, some (fidx, post) =>
+      let c : Cfg Rat := { kind := kind, ω := ω, fidx := fidx, post := post }
       match runSteps tiny c A PState.empty steps [] with
       | .error .abort => pure "ABORT"
       | .error .exc => pure "EXC"
@@ -154,28 +229,54 @@ def handle : P String := do
     let pB ← int
     let ω ← rat
     let A ← csrP
-    let fidx ← natList
+    let fd ← filtP bs
     let steps ← listOf stepP
+    match filtOf bs A.rows fd with
+    | none => pure "ABORT"
+    | some (fidx, post) =>
     if kindS == "ilu" then
       let Ab : Csr (BMat bs) := toBlockCsr bs A
       let stepsB : List (Step (BMat bs)) := steps.map fun st => match st with
         | .initSymbolic => .initSymbolic | .initNumeric => .initNumeric | .done => .done
+        | .doneNumeric => .doneNumeric
         | .apply x => .apply ((chunks bs x).map (vecToMat bs))
+        | .applyIn x => .applyIn ((chunks bs x).map (vecToMat bs))
         | .update v => .update ((chunks (bs * bs) v).map BMat.mk)
-      let c : Cfg (BMat bs) := { kind := .ilu pB, ω := 1, fidx := fidx }
+      let postB : Array (BMat bs) → Option (Array (BMat bs)) := fun y =>
+        (post (flat (y.map (matToVec bs)))).map fun z => (chunks bs z).map (vecToMat bs)
+      let c : Cfg (BMat bs) := { kind := .ilu pB, ω := 1, fidx := fidx, post := postB }
       match runSteps (fun _ => false) c Ab PState.empty stepsB [] with
       | .error .abort => pure "ABORT"
       | .error .exc => pure "EXC"
       | .ok [] => pure "NONE"
-      | .ok outs => pure (" ".intercalate (outs.map fun y => showRB (y.map (matToVec bs))))
-    else if kindS != "sor" && kindS != "ssor" then pure "NOMODEL"
-    else
+      | .ok outs => pure (" ".intercalate (outs.map fun y => showR (flat (y.map (matToVec bs)))))
+    else if kindS == "sor" || kindS == "ssor" then
       let Ab : Csr (Array Rat) :=
         { rows := A.rows, cols := A.cols, rowPtr := A.rowPtr, colInd := A.colInd, val := chunks (bs * bs) A.val }
-      match runBlocked bs (kindS == "ssor") ω fidx Ab steps [] with
+      match runBlocked bs (kindS == "ssor") ω fidx post Ab steps [] with
       | none => pure "ABORT"
       | some [] => pure "NONE"
       | some outs => pure (" ".intercalate outs)
+    else
+      -- Jacobi / matrix / scale / diagonal on BCSR = the scalar object on the expanded matrix
+      let kind? : Option Kind := match kindS with
+        | "jac" => some .jacobi | "mat" => some .matrix | "scale" => some .scale | "diag" => some .diagonal
+        | _ => none
+      match kind? with
+      | none => pure "NOMODEL"
+      | some kind =>
+        let isDiag := kindS == "diag"
+        let Ae : Csr Rat := if isDiag then { A with val := A.val.extract 0 (A.rows * bs) } else expandBcsr bs A
+        let stepsE := steps.map fun st => match st with
+          | .update v => if isDiag then Step.update (v.extract 0 (A.rows * bs)) else Step.update (expandVals bs A v)
+          | st => st
+        let fidxE := fidx.flatMap fun i => (List.range bs).map fun a => i * bs + a
+        let c : Cfg Rat := { kind := kind, ω := ω, fidx := fidxE, post := post }
+        match runSteps tiny c Ae PState.empty stepsE [] with
+        | .error .abort => pure "ABORT"
+        | .error .exc => pure "EXC"
+        | .ok [] => pure "NONE"
+        | .ok outs => pure (" ".intercalate (outs.map showR))
   | "iluf" =>
     let p ← int
     let A ← csrP
